@@ -263,7 +263,8 @@ def handleScan (ds : DState) (sc : ScanCase) : DState × Json :=
           (if (Spec.C07.shortfall ctx want []).isEmpty then [] else ["remainder-requested"]))
     let mon15 : List String := ds.ctl.cfgs.flatMap (fun c =>
       let mine := (paired.filter (fun t => t.1 == c.name)).map (fun t => t.2)
-      (Spec.C15.bad (sc.nowReal / 1000000000) c.taintEffect none mine).map (fun n => "C15:" ++ c.name ++ ":" ++ n))
+      (Spec.C15.bad (sc.nowReal / 1000000000) c.taintEffect none mine).map (fun n => "C15:" ++ c.name ++ ":" ++ n) ++
+      (Spec.C15.restampBad (views c.name) none mine).map (fun n => "C15:" ++ c.name ++ ":a node that carries the escalator taint in this scan's view is given a new one (its grace period restarts): " ++ n))
     let mons := mons ++ mon15
     -- C03 against stale listings (needs the GET responses)
     let mon03 : List String := sc.obs.recs.flatMap (fun ob =>
@@ -472,6 +473,7 @@ def handleLine (ds : DState) (line : String) : DState × Json :=
         | "validate" => some (handleValidate j)
         | "startup" => some (handleStartup j)
         | "assemble" => some (handleAssemble j)
+        | "forever" => some (handleForever j)
         | "decode" => some (handleDecode j)
         | "decode2" => some (handleDecode2 j)
         | _ => none
